@@ -110,7 +110,7 @@ theorem statLoop_fresh [One P] [Mul P] (B : Backend Q P) (cfg : Cfg) (c : Circui
         statLoop B cfg .sv c st cb recs w acc = (w', .ok (acc ++ new)) ∧
         w'.heap.cells = w.heap.cells ++ extra ∧
         new.map (derefEntry w'.heap) = recs.map (branchEntry B c (initBits c (cb.map w.heap.get)) st) ∧
-        (∀ e ∈ new, ∀ r, e.2.2 = some r → w.heap.size ≤ r ∧ r < w'.heap.size) ∧
+        (∀ e ∈ new, ∀ r : Nat, e.2.2 = some r → w.heap.size ≤ r ∧ r < w'.heap.size) ∧
         (new.filterMap (·.2.2)).Nodup ∧ w'.comp = w.comp ∧ w'.proc = w.proc := by
   intro recs
   induction recs with
@@ -214,7 +214,7 @@ theorem runStatistics_fresh [One P] [Mul P] (B : Backend Q P) (cfg : Cfg) (c : C
       w'.heap.cells = w.heap.cells ++ extra ∧
       new.map (derefEntry w'.heap) =
         (records c.numMeas).map (branchEntry B c (initBits c (cb.map w.heap.get)) st) ∧
-      (∀ e ∈ new, ∀ r, e.2.2 = some r → w.heap.size ≤ r ∧ r < w'.heap.size) ∧
+      (∀ e ∈ new, ∀ r : Nat, e.2.2 = some r → w.heap.size ≤ r ∧ r < w'.heap.size) ∧
       (new.filterMap (·.2.2)).Nodup ∧ w'.comp = w.comp ∧ w'.proc = w.proc := by
   obtain ⟨w', new, extra, hloop, h1, h2, h3, h4, h5, h6⟩ :=
     statLoop_fresh B cfg c hc st cb hf (records c.numMeas) w [] (records_isRecord c) hcb
